@@ -268,8 +268,54 @@ def simproc_fidelity():
             ok = False
             print(f"simproc fidelity {name}: real status {p.returncode} log "
                   f"{real_log!r} != sim status {r.status} log {sim_log!r}")
+    # TemporaryDirectory lifecycle: is the directory still there when an exit
+    # handler runs?  Depends on whether the handler was registered before or
+    # after the first TemporaryDirectory of the process (LIFO exit hooks).
+    from sim.simfs import SimFS, mounted
+    for order in ("handler_first", "tempdir_first", "dropped_at_once"):
+        body = {
+            "handler_first": "atexit.register(probe)\nT = TD()\n",
+            "tempdir_first": "T = TD()\natexit.register(probe)\n",
+            "dropped_at_once": "atexit.register(probe)\nNAME = TD().name\n"
+                               "T = type('X', (), {'name': NAME})\n",
+        }[order]
+        prog = ("import atexit, os\nfrom tempfile import TemporaryDirectory "
+                "as TD\n"
+                "def probe():\n    print('EXISTS', os.path.isdir(T.name))\n"
+                + body)
+        p = subprocess.run([PY, "-c", prog], capture_output=True, text=True)
+        real = p.stdout.strip()
+        fs = SimFS()
+        seen = []
+
+        def main():
+            import atexit
+            import os
+            TD = simproc._SimTemporaryDirectory
+            box = {}
+
+            def probe():
+                seen.append("EXISTS " + str(os.path.isdir(box["T"].name)))
+            if order == "handler_first":
+                atexit.register(probe)
+                box["T"] = TD()
+            elif order == "tempdir_first":
+                box["T"] = TD()
+                atexit.register(probe)
+            else:
+                atexit.register(probe)
+                name = TD().name
+                box["T"] = type("X", (), {"name": name})
+        with mounted(fs):
+            simproc.run_process(main, fs=fs)
+        sim = seen[0] if seen else "no output"
+        if real != sim:
+            ok = False
+            print(f"simproc tempdir lifecycle {order}: real {real!r} != sim "
+                  f"{sim!r}")
     print("simproc fidelity:", "ok" if ok else "FAILED",
-          f"({len(cases)} cases vs. real subprocesses)")
+          f"({len(cases)} cases + 3 TemporaryDirectory lifecycle cases vs. "
+          "real subprocesses)")
     return ok
 
 
